@@ -33,6 +33,10 @@ pub struct ReqCase {
     /// set and before this flow's own endpoint; bit 1 (device token only): call set_time_fn; bit 2: set_max_backoff_interval
     #[serde(default)]
     pub noise: u8,
+    /// seed of the ORDER and CHUNKING of the per-request builder calls (add_scope / add_scopes pieces interleaved with
+    /// add_extra_param, verifier vs redirect override): the request must not depend on it
+    #[serde(default)]
+    pub order: u64,
 }
 
 #[derive(Debug)]
@@ -217,6 +221,7 @@ impl CaseInput for ReqCase {
             b: if kind == 2 { gen::hostile_s(r) } else { String::new() },
             url,
             noise: r.below(8) as u8,
+            order: r.below(1 << 20),
         }
     }
 
@@ -243,6 +248,7 @@ impl CaseInput for ReqCase {
                 c
             }};
         }
+        // the caller's extras, in order
         macro_rules! extras {
             ($rq:expr) => {{
                 let mut rq = $rq;
@@ -252,17 +258,33 @@ impl CaseInput for ReqCase {
                 rq
             }};
         }
-        macro_rules! scopes {
+        // scopes in insertion order, cut into add_scope / add_scopes pieces (several calls on an already non-empty list),
+        // interleaved with the extras: a builder method that replaces, prepends or clears what an earlier call added shows
+        macro_rules! scopes_extras {
             ($rq:expr) => {{
                 let mut rq = $rq;
-                // exercise both add_scope and add_scopes
-                if self.scopes.len() >= 2 {
-                    rq = rq.add_scope(Scope::new(self.scopes[0].clone()));
-                    rq = rq.add_scopes(self.scopes[1..].iter().map(|s| Scope::new(s.clone())));
-                } else {
-                    for s in &self.scopes {
-                        rq = rq.add_scope(Scope::new(s.clone()));
+                let mut o = Rng::new(self.order);
+                let (mut si, mut ei) = (0usize, 0usize);
+                let ns = self.scopes.len();
+                while si < ns || ei < self.extras.len() {
+                    let take_scope = si < ns && (ei >= self.extras.len() || o.chance(1, 2));
+                    if take_scope {
+                        let n = 1 + o.below((ns - si) as u64) as usize;
+                        if n == 1 && o.chance(1, 2) {
+                            rq = rq.add_scope(Scope::new(self.scopes[si].clone()));
+                        } else {
+                            rq = rq.add_scopes(self.scopes[si..si + n].iter().map(|s| Scope::new(s.clone())));
+                        }
+                        si += n;
+                    } else {
+                        let (k, v) = &self.extras[ei];
+                        rq = rq.add_extra_param(k.clone(), v.clone());
+                        ei += 1;
                     }
+                }
+                if self.order & 1 == 1 {
+                    // an empty add_scopes at the end must change nothing
+                    rq = rq.add_scopes(std::iter::empty::<Scope>());
                 }
                 rq
             }};
@@ -294,37 +316,53 @@ impl CaseInput for ReqCase {
             0 => {
                 let c = base.set_token_uri(TokenUrl::new(self.url.clone()).unwrap());
                 let mut rq = c.exchange_code(AuthorizationCode::new(self.a.clone()));
-                if let Some(v) = &self.verifier {
-                    rq = rq.set_pkce_verifier(PkceCodeVerifier::new(v.clone()));
+                // verifier, redirect override and extras in a case-specific order
+                let mut steps = [0u8, 1, 2];
+                let mut o = Rng::new(self.order);
+                for i in (1..3).rev() {
+                    let j = o.below(i as u64 + 1) as usize;
+                    steps.swap(i, j);
                 }
-                if let Some(o) = &self.override_redirect {
-                    rq = rq.set_redirect_uri(Cow::Owned(RedirectUrl::new(o.clone()).unwrap()));
+                for st in steps {
+                    match st {
+                        0 => {
+                            if let Some(v) = &self.verifier {
+                                rq = rq.set_pkce_verifier(PkceCodeVerifier::new(v.clone()));
+                            }
+                        }
+                        1 => {
+                            if let Some(o) = &self.override_redirect {
+                                rq = rq.set_redirect_uri(Cow::Owned(RedirectUrl::new(o.clone()).unwrap()));
+                            }
+                        }
+                        _ => rq = extras!(rq),
+                    }
                 }
-                let res = extras!(rq).request(&http);
+                let res = rq.request(&http);
                 note!(res);
             }
             1 => {
                 let c = base.set_token_uri(TokenUrl::new(self.url.clone()).unwrap());
                 let rt = RefreshToken::new(self.a.clone());
-                let res = extras!(scopes!(c.exchange_refresh_token(&rt))).request(&http);
+                let res = scopes_extras!(c.exchange_refresh_token(&rt)).request(&http);
                 note!(res);
             }
             2 => {
                 let c = base.set_token_uri(TokenUrl::new(self.url.clone()).unwrap());
                 let u = ResourceOwnerUsername::new(self.a.clone());
                 let p = ResourceOwnerPassword::new(self.b.clone());
-                let res = extras!(scopes!(c.exchange_password(&u, &p))).request(&http);
+                let res = scopes_extras!(c.exchange_password(&u, &p)).request(&http);
                 note!(res);
             }
             3 => {
                 let c = base.set_token_uri(TokenUrl::new(self.url.clone()).unwrap());
-                let res = extras!(scopes!(c.exchange_client_credentials())).request(&http);
+                let res = scopes_extras!(c.exchange_client_credentials()).request(&http);
                 note!(res);
             }
             4 => {
                 let c = base.set_device_authorization_url(DeviceAuthorizationUrl::new(self.url.clone()).unwrap());
                 let res: Result<StandardDeviceAuthorizationResponse, _> =
-                    extras!(scopes!(c.exchange_device_code())).request(&http);
+                    scopes_extras!(c.exchange_device_code()).request(&http);
                 note!(res);
             }
             5 => {
